@@ -11,6 +11,11 @@
 // that the dependency order computed by ReorderModels is observable (a rebuilt child table whose
 // new parent does not exist yet fails with "no such table").
 //
+// One case in sixteen (multi.go) has ONE owner with SEVERAL has-one/has-many relations to the
+// SAME child model (in v1 already, or added in v2 to the populated child table), a second owner
+// with a relation of the same name, and both directions between the two models; the child table
+// must carry one foreign key per relation.
+//
 // Tag values NOT generated because their non-idempotence is caused by the external SQLite
 // dialector's DDL parser (gorm.io/driver/sqlite ddlmod.go), not by migrator/migrator.go:
 //   - default:(expr)  e.g. default:(abs(-5)), default:(lower('AB')): defaultValueRegexp strips the
@@ -26,6 +31,11 @@
 //   - remigrate_v{1,2}_ddl:rebuild-without-change: a numeric default spelled differently from
 //     Go's rendering of the parsed value (default:1.0, default:0.0) makes every AutoMigrate
 //     rebuild the table (MigrateColumn compares the database's "1" with the tag text "1.0")
+//   - multi_migrate_v2_error:child-listed-before-new-owner: AutoMigrate(&Letter{}, &Office{}) where
+//     letters exists with rows, offices does not, and Office declares a has-many to Letter: under
+//     _foreign_keys=1 the call fails with "no such table: main.offices" (ReorderModels reads the
+//     child's dependencies before the later argument Office was parsed, so letters is rebuilt
+//     first); AutoMigrate(&Office{}, &Letter{}) succeeds
 package c20
 
 import (
@@ -802,6 +812,8 @@ func run(c *core.Ctx) {
 		runStatic(c)
 	case c.Case%8 == 5:
 		runGrow(c)
+	case c.Case%16 == 1:
+		runMulti(c)
 	default:
 		runGenerated(c)
 	}
@@ -811,10 +823,11 @@ var Engine = &core.Engine{
 	ID:    "C20",
 	Level: "exploration",
 	Rule: "per case a fresh in-memory SQLite database and the history migrate(v1) -> 1..5 rows by raw SQL + 0..2 by gorm Create -> migrate(v1) -> migrate(v2) -> Create of v2 records (single, slice) read back by raw SQL and First -> migrate(v2); " +
-		"5 of 8 cases: model types generated with reflect.StructOf (5 key shapes; 1..7 fields of 33 Go kinds incl. pointers, sql.Null*, a custom Scanner/Valuer, a json serializer field, embedded structs with prefix; tags column, default (literal, quoted, spaced, empty, null, function), not null, size, type, precision, comment, unique, check (named/unnamed), index (plain, named, sort, length, comment, unique, class, collate, expression, partial), uniqueIndex, composite indexes with priorities, permissions, autoCreate/UpdateTime); v2 = v1 + 0..4 fields + 0..3 index/unique/check tags on existing fields + composite indexes spanning old and new fields; " +
-		"1 of 8: static types with anonymous embedding (gorm.Model, soft delete); 1 of 8: a related family (belongs-to, has-many, many2many, self reference, has-one added in v2) migrated as a random permutation/subset through ReorderModels; " +
+		"9 of 16 cases: model types generated with reflect.StructOf (5 key shapes; 1..7 fields of 33 Go kinds incl. pointers, sql.Null*, a custom Scanner/Valuer, a json serializer field, embedded structs with prefix; tags column, default (literal, quoted, spaced, empty, null, function), not null, size, type, precision, comment, unique, check (named/unnamed), index (plain, named, sort, length, comment, unique, class, collate, expression, partial), uniqueIndex, composite indexes with priorities, permissions, autoCreate/UpdateTime); v2 = v1 + 0..4 fields + 0..3 index/unique/check tags on existing fields + composite indexes spanning old and new fields; " +
+		"1 of 8: static types with anonymous embedding (gorm.Model, soft delete); 1 of 8: a related family (belongs-to, has-many, many2many, self reference, has-one added in v2) migrated as a random permutation/subset through ReorderModels (demanded besides columns/indexes: the foreign keys of users, and those that live in other tables - pets and profs for the has-many/has-one of User, the join table user_langs); " +
 		"1 of 8: a family whose RELATIONS are added in v2 to tables that exist and hold rows (engine/c20/grow.go): v1 = books -> shelves plus a random subset of unrelated authors/publishers/tags tables with rows; v2 = one of three Book variants on table books (belongs-to only; has-many + many2many only; two belongs-to to one parent + has-many + many2many + unique index) with Author gaining a belongs-to to Publisher (dependency chain of depth 2) and a check, new tables reviews/book_tags; drawn per case: which referenced tables already exist, which models are passed and in which order (Book always; the others 2/3 each, otherwise reached as dependencies only; an unrelated model at times), one AutoMigrate call or the list split over two calls, db.AutoMigrate or db.Migrator().AutoMigrate, foreign key enforcement of the connections (_foreign_keys=1, 2 of 3), DisableForeignKeyConstraintWhenMigrating (1 of 8); demanded: no error, v1 cells unchanged, v1 objects kept, columns/indexes/foreign keys (pragma_foreign_key_list)/checks of every passed model and the tables its belongs-to/many2many point to exist, a v2 record with nested new associations round-trips (raw SQL and First+Preload), v2 again in another order issues no DDL; " +
-		"distinct = (key shape, set of v1 tag features, set of added features) resp. (family, argument order, additions) resp. (variant, enforcement, v1 tables, v2 argument order, call form); non-trivial = v2 adds something and the whole history ran",
+		"1 of 16: PARALLEL RELATIONS (engine/c20/multi.go, models engine/c20/multi): one owner (people) with several has-one/has-many relations to the SAME child (letters), so the child table carries one foreign key per relation, all to the same parent table; v1 = one of 5 owner/child pairs (no relation; one has-many; two has-many created with the table, either declaration order; the child belongs to the owner) plus an unrelated offices table at times, rows by raw SQL; v2 = one of 8 owners on the same tables whose relations include v1's (1..4 relations to letters: has-many and has-one mixed, new relations declared before or after the old ones, ON DELETE/ON UPDATE actions, a constraint with a name of its own, two more has-many to a table parcels that is new in v2; belongs-to and has-many in both directions between the two models over different columns or over the same column) and, 1 of 2, a second owner Office whose has-many to letters has the same relation NAME (Sent) as Person's, its table new or existing; drawn per case: argument order, one call or two (owners first, cut anywhere), db.AutoMigrate or db.Migrator().AutoMigrate, _foreign_keys=1 (2 of 3), DisableForeignKeyConstraintWhenMigrating (1 of 8); demanded: no error, v1 cells unchanged, every column/index, for EVERY relation of a passed owner its foreign key in the child table (pragma_foreign_key_list: column, parent table, ON DELETE, ON UPDATE) after v1 and after v2, under enforcement a dangling reference in each such column is refused, old rows read back through the v2 models, a v2 owner created with 1..2 children under every relation round-trips (raw SQL per foreign key column and First+Preload of every relation; a child with a nested belongs-to parent), v1 again / v2 again in another order issue no DDL; " +
+		"distinct = (key shape, set of v1 tag features, set of added features) resp. (family, argument order, additions) resp. (variant, enforcement, v1 tables, v2 argument order, call form) resp. (v1 owner, v2 owner, offices in v1, enforcement, v2 argument order, call form); non-trivial = v2 adds something and the whole history ran",
 	Assumptions: []string{
 		"values are non-zero, distinct per row and satisfy every generated CHECK; data that would make the database itself refuse the new constraint (duplicates under a new unique index, a new NOT NULL column without constant default, a non-constant default on ADD COLUMN, a unique constraint on an added column that has a constant default) is not generated",
 		"schema-changing statement = text starting with CREATE/ALTER/DROP or containing RENAME/__temp on the recording driver (the SQLite dialector rebuilds tables through <table>__temp)",
@@ -824,6 +837,8 @@ var Engine = &core.Engine{
 		"foreign key enforcement (_foreign_keys=1) is switched on only in the growing-relations family, where no table that v2 has to rebuild is referenced by rows of another table: the external SQLite dialector adds a constraint by CREATE <t>__temp / INSERT..SELECT / DROP TABLE <t> / RENAME, and DROP TABLE of a referenced, populated parent fails under enforcement (`FOREIGN KEY constraint failed`, e.g. users gaining fk_users_manager while pets/user_langs rows point to it) - cause outside /repo, so the older relational family runs without enforcement",
 		"growing-relations family: the foreign key of a has-many is declared by the owner (Book.Reviews) but lives in the child table; a separate earlier AutoMigrate(&Review{}) call that has not seen Book cannot know it and the later AutoMigrate(&Book{}) does not touch reviews - the statement does not fix who adds it, so when the argument list is split over two calls Review is never in an earlier call than Book; has-many children that are not passed are not expected to exist; v2 columns are demanded only of models that were passed (for tables reached as dependencies only their existence is demanded, and nested associations in the round-trip record are used only for passed models)",
 		"with DisableForeignKeyConstraintWhenMigrating no foreign key is demanded (nor its absence); IgnoreRelationshipsWhenMigrating is not generated",
+		"parallel-relations family: as in the growing family the foreign key of a has-one/has-many is known only to a call that has seen the owner, so the child (letters, parcels) is never passed in an earlier call than an owner and is never passed without the owner; foreign keys are compared by (column, parent table, ON DELETE, ON UPDATE), never by constraint name, and additional foreign keys on the same column are tolerated (v1's belongs-to constraint next to v2's has-many constraint over the same column: the statement does not say whether they are one constraint); every v2 relation repeats the tags of its v1 version; constraint:- , polymorphic relations, composite and non-primary references, and relations inside embedded structs are not generated; the owner tables gain only a plain column and an index in v2 (a constraint added to a parent table that is referenced by rows makes the external SQLite dialector's table rebuild fail under enforcement, see above); every reference in the raw rows points to an existing person",
+		"a DryRun session (Session{DryRun:true}.AutoMigrate) is outside the statement (it fixes what a migration adds and preserves, not that a dry run leaves the database alone) and is not generated",
 	},
 	Cases: func(tier string) int {
 		if tier == "thorough" {
